@@ -20,7 +20,12 @@ type AllocJ struct {
 	Size  uint64 `json:"size"`
 	GPU   int    `json:"gpu"`
 	Remap []int  `json:"remap"` // per page: GPU to move the page to (0 = leave)
-	Ptr   uint64 `json:"ptr"`   // observed
+	// Unified: allocate while a unified device bundling these GPUs is selected
+	// (CreateUnifiedGPU + SelectGPU): the pages are striped over the members
+	Unified []int `json:"unified"`
+	// Distribute: afterwards spread the buffer over these GPUs (Driver.Distribute)
+	Distribute []int  `json:"distribute"`
+	Ptr        uint64 `json:"ptr"` // observed
 }
 
 type PageJ struct {
@@ -278,8 +283,15 @@ func newDrvEnv(c *DrvCase) *drvEnv {
 	c.PT = nil
 	for i := range c.Allocs {
 		a := &c.Allocs[i]
-		e.d.SelectGPU(e.ctx, a.GPU)
+		if len(a.Unified) > 0 {
+			e.d.SelectGPU(e.ctx, e.d.CreateUnifiedGPU(e.ctx, a.Unified))
+		} else {
+			e.d.SelectGPU(e.ctx, a.GPU)
+		}
 		a.Ptr = uint64(e.d.AllocateMemory(e.ctx, a.Size))
+		if len(a.Distribute) > 1 {
+			e.d.Distribute(e.ctx, driver.Ptr(a.Ptr), a.Size, a.Distribute)
+		}
 		np := (a.Size-1)/ps + 1
 		for k := uint64(0); k < np; k++ {
 			if int(k) < len(a.Remap) && a.Remap[k] != 0 && a.Remap[k] != a.GPU {
@@ -599,6 +611,31 @@ func genDrv(rng *vh.Rng, idx int) DrvCase {
 			for k := range a.Remap {
 				if rng.Intn(2) == 0 {
 					a.Remap[k] = 1 + rng.Intn(c.NGPU)
+				}
+			}
+		}
+		if c.NGPU > 1 {
+			switch rng.Intn(4) {
+			case 0: // allocated on a unified device over two or three GPUs
+				perm := []int{}
+				for g := 1; g <= c.NGPU; g++ {
+					perm = append(perm, g)
+				}
+				for i := len(perm) - 1; i > 0; i-- {
+					j := rng.Intn(i + 1)
+					perm[i], perm[j] = perm[j], perm[i]
+				}
+				k := 2
+				if len(perm) > 2 && rng.Bool() {
+					k = 3
+				}
+				a.Unified = perm[:k]
+			case 1: // spread afterwards with Distribute
+				a.Distribute = []int{}
+				for g := 1; g <= c.NGPU; g++ {
+					if rng.Intn(3) != 0 {
+						a.Distribute = append(a.Distribute, g)
+					}
 				}
 			}
 		}
